@@ -253,4 +253,19 @@ impl<'a> DataRowIteratorTestData<'a> {
         &&& row.expected@.len() == self.expected_indices@.len()
         &&& (forall|k: int| 0 <= k < row.expected@.len() ==> #[trigger] row.expected@[k] == self.expected_entry_spec(k, head.entries))
     }
+
+    /// what get_row establishes when it returns the evaluated row `row` (old: self before, fin: self after)
+    #[verifier::prophetic]
+    spec fn got_row(old: Self, old_ctx: EvalContext, fin: Self, fin_ctx: EvalContext, row: EvaluatedRow<'a>) -> bool {
+        fin.td_inv() && (exists|p: Seq<RowS>| #[trigger] p.len() > 0
+            // p: the rows still to come. From the stack if it is not empty (C05: nothing is re-evaluated) ...
+            && (old.cache@.len() > 0 ==> p == old.pending(old.cache@) && fin.iter == old.iter && fin_ctx == old_ctx)
+            // ... otherwise the expansion of the next row the program emits (C01)
+            && (old.cache@.len() == 0 ==> (exists|src: RowS| #[trigger] emits(abs(old.iter, old_ctx), abs(fin.iter, fin_ctx), src)
+                && p == old.cols().expand_spec(src)))
+            // the first of them is returned, as complete vectors (C06/C07); the others stay pending, in order (C05)
+            && fin.pending(fin.cache@) == p.skip(1)
+            && fin.row_matches(row, p[0], old.prev)
+            && (fin.prev matches Some(pv) && pv@ == p[0].entries))
+    }
 }
